@@ -17,7 +17,7 @@ FUNCS = ['TorProcessProtocol.__init__', 'TorProcessProtocol.when_connected', 'To
          'TorProcessProtocol.outReceived', 'TorProcessProtocol.errReceived', 'TorProcessProtocol._timeout_expired',
          'TorProcessProtocol.processEnded', 'TorProcessProtocol.processExited', 'TorProcessProtocol.cleanup',
          'TorProcessProtocol._status_client', 'TorProcessProtocol._tor_connected', 'TorProcessProtocol._tor_connection_failed',
-         'TorProcessProtocol.progress']
+         'TorProcessProtocol.progress', 'launch']
 TRUSTED = [
     'A2/A8 process transport delivers outReceived/errReceived/processExited/processEnded; spawnProcess; real temp directories (twin)',
     'A3 Deferred / inlineCallbacks semantics; A6 reactor timers fire once, DelayedCall.cancel',
@@ -33,9 +33,10 @@ MANIFEST = {
             'stored outcome" is proved preserved by when_connected, _maybe_notify_connected, _status_client, _timeout_expired and processEnded from both '
             'states, so it holds for every ordering of those events. Success is proved to be fired only by a BOOTSTRAP event with PROGRESS=100 (timer '
             'cancelled only then); timeout signals TERM and fails; processEnded deletes exactly to_delete and fails; in _tor_connected the STATUS_CLIENT '
-            'listener is registered only after post_bootstrap resumed normally and TAKEOWNERSHIP is submitted right after the subscription resumes.',
+            'listener is registered only after post_bootstrap resumed normally and TAKEOWNERSHIP is submitted right after the subscription resumes. '
+            'launch(): a caller-supplied data directory is never put on to_delete nor given a shutdown trigger; without one, exactly the mkdtemp directory is DataDirectory, to_delete and the target of the shutdown trigger.',
     'level_note': 'Assumed (A): Deferred/inlineCallbacks/timer semantics, process transport, event text tokenisation uninterpreted, Tor sends no event before '
-                  'acknowledging SETEVENTS. Bounded (B): permutations of the event set with real temp directories in the twin; launch() itself (tempdir creation) only in the twin.',
+                  'acknowledging SETEVENTS. Bounded (B): permutations of the event set with real temp directories in the twin; launch() is under contract for the data-directory clauses (six units: caller directory / temporary directory x ControlPort 0 / TCP / default unix socket, real TorProcessProtocol.__init__ inlined) with tor_binary, socks_port, user, connection_creator and the TorConfig given (opaque config object; its attribute writes are recorded); launch()'s own TorConfig(), find_tor_binary, available_tcp_port and the unix: control-socket directory checks only in the twin.',
 }
 
 
@@ -439,9 +440,171 @@ def unit_delete(n):
     return run
 
 
+class LaunchModels19(InitModels19):
+    """externals of controller.launch(): os.mkdir (succeeds or raises OSError), tempfile.mkdtemp (a fresh path), functools.partial (kept as a
+    tuple), reactor.addSystemEventTrigger / spawnProcess (recorded), euid / pid (any integer), os.path.exists (either), os.chown, pwd.getpwnam,
+    IReactorCore.providedBy (true: the other answer raises at once), TorConfig as an opaque object whose attribute writes are recorded"""
+    def callable_(self, ex, path, obj, args, kw):
+        import functools, os, tempfile, pwd
+        if obj is os.mkdir:
+            pr = path.fork()
+            b = ex.fresh_bool(pr, 'mkdir_fails')
+            pr.assume(b)
+            path.assume(z3.Not(b))
+            self.glog_add(path, 'mkdir', args[0])
+            return [(path, NONE)] + ex.raise_(pr, OSError, 'exists')
+        if obj is tempfile.mkdtemp:
+            self.glog_add(path, 'mkdtemp', NONE)
+            return [(path, VStr(z3.String('tmpdir')))]
+        if obj is os.geteuid:
+            return [(path, VInt(ex.fresh_int(path, 'euid')))]
+        if obj is os.getpid:
+            return [(path, VInt(ex.fresh_int(path, 'pid')))]
+        if obj is os.chown:
+            self.glog_add(path, 'chown', tuple(args))
+            return [(path, NONE)]
+        if obj is pwd.getpwnam:
+            return [(path, VOpaque('pwent', 7003))]
+        if obj is os.path.exists:
+            return [(path, VBool(ex.fresh_bool(path, 'exists')))]
+        if obj is os.path.realpath and isinstance(args[0], VStr):
+            return [(path, VStr(F_realpath(args[0].t)))]
+        if obj is os.path.join and all(isinstance(a, VStr) for a in args):
+            t = args[0].t
+            for a in args[1:]:
+                t = z3.Concat(t, z3.StringVal('/'), a.t)
+            return [(path, VStr(t))]
+        if obj is functools.partial:
+            return [(path, VTuple([VConc('partial')] + list(args)))]
+        return InitModels19.callable_(self, ex, path, obj, args, kw)
+
+    def opaque_attr(self, ex, path, obj, name):
+        if obj.kind == 'config' and name == 'ControlPort':
+            return [(path, NONE)]          # the caller's config leaves ControlPort open (units *_unix_default)
+        if obj.kind == 'pwent' and name == 'pw_uid':
+            return [(path, VInt(ex.fresh_int(path, 'uid')))]
+        return InitModels19.opaque_attr(self, ex, path, obj, name)
+
+    def method(self, ex, path, recv, name, args, kw):
+        if isinstance(recv, VConc) and name == 'providedBy':
+            return [(path, VBool(True))]
+        if isinstance(recv, VOpaque):
+            k = recv.kind
+            if k == 'reactor' and name == 'addSystemEventTrigger':
+                self.glog_add(path, 'triggers', tuple(args))
+                return [(path, NONE)]
+            if k == 'reactor' and name == 'spawnProcess':
+                self.glog_add(path, 'spawn', (tuple(args), dict(kw)))
+                return [(path, VOpaque('transport', 7002))]
+            if k == 'transport' and name == 'closeStdin':
+                return [(path, NONE)]
+            if k == 'config' and name == 'config_args':
+                return [(path, VTuple([]))]
+        return InitModels19.method(self, ex, path, recv, name, args, kw)
+
+
+def _is_delete_partial(v, dd_t):
+    import txtorcon.util as util
+    if not (isinstance(v, VTuple) and len(v.items) == 3 and isinstance(v.items[0], VConc) and v.items[0].obj == 'partial'):
+        return None
+    fn, a = v.items[1], v.items[2]
+    is_del = (isinstance(fn, VFunc) and fn.qualname == 'delete_file_or_tree') or (isinstance(fn, VConc) and fn.obj is util.delete_file_or_tree)
+    if not (is_del and isinstance(a, VStr)):
+        return None
+    return a.t == dd_t
+
+
+def unit_launch(caller_dir, ctl):
+    """controller.launch(): a caller-supplied data directory is never registered for deletion (neither on the process protocol nor as a
+    shutdown trigger) and is the DataDirectory / HOME Tor gets; without one, exactly the directory mkdtemp returned is DataDirectory, is the
+    protocol's to_delete and has a shutdown trigger deleting it.  The real TorProcessProtocol.__init__ is inlined."""
+    def run(ctx):
+        ctx.fn(MODULE, 'launch')
+        from pyvc import extract
+        import txtorcon.controller as ctlmod
+        ex = ctx.ex
+        path = ctx.new_path()
+        mi, node = extract.find(MODULE, 'launch')
+        f = VFunc(node, MODULE, 'launch')
+        cfg = VOpaque('config', 7300)
+        kw = {'tor_binary': VStr('/usr/bin/tor'), '_tor_config': cfg, 'socks_port': VInt(9050), 'user': VStr('u'),
+              'connection_creator': VOpaque('connection_creator', 7100)}
+        if ctl == 'zero':
+            kw['control_port'] = VInt(0)
+        elif ctl == 'tcp':
+            cp = z3.Int('control_port')
+            ctx.input('control_port', cp)
+            path.assume(cp > 0)
+            kw['control_port'] = VInt(cp)
+        if caller_dir:
+            dd = z3.String('data_directory')
+            ctx.input('data_directory', dd)
+            kw['data_directory'] = VStr(dd)
+            the_dir = dd
+        else:
+            the_dir = z3.String('tmpdir')
+        ctx.cover('pre_satisfiable', path)
+        n_ok = 0
+        for p, r in ex.call(path, f, [VOpaque('reactor', 7001)], kw):
+            H = p.heap
+            trig = ctx.models.glog(p, 'triggers')
+            spawn = ctx.models.glog(p, 'spawn')
+            sets = [(n, v) for (o, n, v) in ctx.models.glog(p, 'set') if o is cfg or (isinstance(o, VOpaque) and o.kind == 'config')]
+            mk = ctx.models.glog(p, 'mkdtemp')
+            dds = [v for (n, v) in sets if n == 'DataDirectory']
+            ctx.oblige('post.DataDirectory_is_the_directory_in_use', p,
+                       zand(B(len(dds) == 1 and isinstance(dds[0], VStr)), dds[0].t == the_dir) if dds and isinstance(dds[0], VStr) else B(False),
+                       clause='a temporary data directory created for the launch / a caller-supplied directory')
+            tos = []
+            if spawn:
+                pp = spawn[0][0][0]
+                if isinstance(pp, VInst):
+                    lst = H.get(('f', pp.oid, 'to_delete'))
+                    tos = ex.list_items(p, lst) if isinstance(lst, VList) else None
+                else:
+                    tos = None
+            if caller_dir:
+                ctx.oblige('post.caller_directory_is_never_registered_for_deletion', p,
+                           B(len(trig) == 0 and len(mk) == 0 and tos is not None and len(tos) == 0),
+                           clause='a caller-supplied directory is never removed')
+            else:
+                dels = [_is_delete_partial(t[2], the_dir) if len(t) == 3 else None for t in trig]
+                when_ok = all(len(t) == 3 and concrete_of(t[0]) == (True, 'before') and concrete_of(t[1]) == (True, 'shutdown') for t in trig)
+                ctx.oblige('post.exactly_one_temporary_directory_is_created', p, B(len(mk) == 1),
+                           clause='a temporary data directory created for the launch')
+                ctx.oblige('post.shutdown_trigger_deletes_the_temporary_directory', p,
+                           zand(B(bool(trig) and when_ok and all(d is not None for d in dels)), *[d for d in dels if d is not None]),
+                           clause='a temporary data directory created for the launch is removed (fallback at reactor shutdown)')
+                if spawn:
+                    ok = tos is not None and len(tos) == 1 and isinstance(tos[0], VStr)
+                    ctx.oblige('post.spawned_protocol_deletes_exactly_the_temporary_directory', p,
+                               zand(B(ok), tos[0].t == the_dir) if ok else B(False),
+                               clause='a temporary data directory created for the launch is removed once the process has ended')
+            if spawn:
+                env = spawn[0][1].get('env')
+                home = None
+                if env is not None:
+                    try:
+                        for p2, v in ex.index(p.fork(), env, VStr('HOME')) if hasattr(ex, 'index') else []:
+                            home = v
+                    except Exception:
+                        home = None
+                ctx.notes.append('spawn recorded; env HOME %s' % ('read' if home is not None else 'not inspected'))
+            if isinstance(r, Raise):
+                continue
+            n_ok += 1
+            ctx.oblige('post.process_was_spawned_once_before_success', p, B(len(spawn) == 1),
+                       clause='launch succeeds only after the process was started')
+        if not n_ok:
+            ctx.oblige('some_normal_exit', path, B(False))
+    return run
+
+
 def make_models_for(unit_name):
     if 'delete_file_or_tree' in unit_name:
         return DeleteModels19()
+    if 'C19/launch@' in unit_name:
+        return LaunchModels19()
     return InitModels19() if '__init__' in unit_name else NotifyModels()
 
 
@@ -452,6 +615,9 @@ def units():
         for notified in (False, True):
             out.append(('C19/%s@%s' % (h, 'outcome_known' if notified else 'pending'), unit_handler(h, notified)))
     out.append(('C19/_tor_connected', unit_tor_connected()))
+    for caller_dir in (True, False):
+        for ctl in ('zero', 'tcp', 'unix_default'):
+            out.append(('C19/launch@%s_%s' % ('caller_dir' if caller_dir else 'tempdir', ctl), unit_launch(caller_dir, ctl)))
     return out
 
 
